@@ -47,6 +47,7 @@ class Treeifier:
         self._akey, self._ckey = {}, {}
         self.uses_normal = False
         self.has_cond = False
+        self.geos = []             # geometric quantities used: [name, restriction]
         self.ftabs = []            # transcendental function nodes: {"fn": name, "args": [subtree, ...]}
         self.max_deriv = 0
         self.nodes = 0
@@ -118,6 +119,15 @@ class Treeifier:
             return {"t": "K", "c": idx[0], "k": idx[1], "r": r}
         if isinstance(e, uc.JacobianDeterminant) and not nd:
             return {"t": "detJ", "r": r}
+        geo = {uc.CellVolume: "volume", uc.Circumradius: "circumradius", uc.CellDiameter: "diameter",
+               uc.FacetArea: "facetarea", uc.MinCellEdgeLength: "minedge", uc.MaxCellEdgeLength: "maxedge"}
+        for cls, name in geo.items():
+            if isinstance(e, cls):
+                if nd:
+                    return _num(0)
+                if [name, r] not in self.geos:
+                    self.geos.append([name, r])
+                return {"t": "geo", "g": name, "r": r}
         raise OutOfModel(f"terminal {type(e).__name__} is outside the model")
 
     @staticmethod
